@@ -25,7 +25,8 @@ type cfg struct {
 	qps, burst int32
 	// shape: "" = only the tokenBucket member; "global-member" = the rarely used globalTokenBucket member is set as well
 	// (50 x larger) under the default strategy; "global-strategy" = same with strategy globalCount. This limiter runs in
-	// local mode, where the LOCAL member is what binds in all three.
+	// local mode, where the LOCAL member is what binds in all three. "remote-fallback" = plain schema, but the gateway
+	// runs with the remote limiter selected and has no limiter server: Load()'s fallback branch hands out the local bucket.
 	shape string
 }
 
@@ -38,7 +39,7 @@ func (c cfg) String() string {
 
 func tb(name string, c cfg) proxyv1alpha1.FlowControlSchema {
 	sc := proxyv1alpha1.FlowControlSchema{Name: name, FlowControlSchemaConfiguration: proxyv1alpha1.FlowControlSchemaConfiguration{TokenBucket: &proxyv1alpha1.TokenBucketFlowControlSchema{QPS: c.qps, Burst: c.burst}}}
-	if c.shape != "" {
+	if c.shape != "" && c.shape != "remote-fallback" {
 		sc.GlobalTokenBucket = &proxyv1alpha1.TokenBucketFlowControlSchema{QPS: c.qps * 50, Burst: c.burst * 50}
 		if c.shape == "global-strategy" {
 			sc.Strategy = proxyv1alpha1.GlobalCountLimit
@@ -52,7 +53,7 @@ func mif(name string, m int32) proxyv1alpha1.FlowControlSchema {
 
 var t0 = time.Unix(1700000000, 0)
 
-var cfgs = []cfg{{qps: 1, burst: 1}, {qps: 1, burst: 3}, {qps: 2, burst: 2}, {qps: 4, burst: 8}, {qps: 2, burst: 5}, {qps: 2, burst: 3, shape: "global-member"}, {qps: 1, burst: 2, shape: "global-strategy"}}
+var cfgs = []cfg{{qps: 1, burst: 1}, {qps: 1, burst: 3}, {qps: 2, burst: 2}, {qps: 4, burst: 8}, {qps: 2, burst: 5}, {qps: 2, burst: 3, shape: "global-member"}, {qps: 1, burst: 2, shape: "global-strategy"}, {qps: 2, burst: 2, shape: "remote-fallback"}}
 
 type step struct {
 	kind string
@@ -208,7 +209,11 @@ func seqString(all []step, idx []int) string {
 func enumerate(c *ev.Check, base cfg, L int, first int) {
 	ctx, cancel := context.WithCancel(context.Background())
 	defer cancel()
-	lim := flowcontrols.NewUpstreamLimiter(ctx, "c1", "", nil)
+	mode := ""
+	if base.shape == "remote-fallback" {
+		mode = "remote"
+	}
+	lim := flowcontrols.NewUpstreamLimiter(ctx, "c1", mode, nil)
 	all := steps(base)
 	var idx []int
 	var rec func()
@@ -356,6 +361,6 @@ func main() {
 		"transitions":                   c.Counter("sequences")*int64(L)/2 + c.Counter("steps"),
 		"traces_validated_against_impl": c.Counter("sequences") + c.Counter("schedules"),
 		"sequence_len_bound":            L,
-		"explanation":                   "every step sequence up to the bound over 13 steps x 7 start configurations (two of them with the globalTokenBucket member also set, one step shorter) is one trace of the real limiter on the virtual clock (states = sequences, transitions ~ steps executed); plus the scheduling decision points/steps of the concurrent harnesses.",
+		"explanation":                   "every step sequence up to the bound over 13 steps x 8 start configurations (two with the globalTokenBucket member also set, one in remote mode without a limiter server; these one step shorter) is one trace of the real limiter on the virtual clock (states = sequences, transitions ~ steps executed); plus the scheduling decision points/steps of the concurrent harnesses.",
 	})
 }
